@@ -193,7 +193,7 @@ def run_dir(pid):
     return d
 
 
-SAN_RE = re.compile(r"(ERROR: AddressSanitizer: [\w-]+|ERROR: LeakSanitizer: [\w ]+|runtime error: [^\n]+|"
+SAN_RE = re.compile(r"(ERROR: AddressSanitizer: attempting [\w-]+|ERROR: AddressSanitizer: [\w-]+|ERROR: LeakSanitizer: [\w ]+|runtime error: [^\n]+|"
                     r"WARNING: ThreadSanitizer: [\w ]+|AddressSanitizer: [\w-]+ on|DEADLYSIGNAL)")
 
 
@@ -237,8 +237,17 @@ def valgrind_key(err):
     return "memcheck:%s@%s" % (kind, frame or "?")
 
 
+def _read_case(path):
+    try:
+        raw = open(path, "rb").read().split(b"\0", 1)[0].decode("latin-1")
+        idx_s, _, body = raw.partition("\n")
+        return json.loads('{"idx":%d%s%s}' % (int(idx_s), "," if body else "", body))
+    except Exception:
+        return None
+
+
 def run_shards(binary, args, nshards, rundir, env=None, timeout=1800, tag="s", stdin_data=None,
-               max_restarts=20):
+               max_restarts=20, stall=240):
     """Run `binary args --shard i --nshards n` for each shard in parallel.
 
     Each shard's stdout goes to <rundir>/<tag><i>.out (JSONL).  If a shard dies
@@ -255,6 +264,8 @@ def run_shards(binary, args, nshards, rundir, env=None, timeout=1800, tag="s", s
     outs = []
     crashes = []
     restarts = {}
+    progress = {}
+    drvname = os.path.basename(binary if binary != "valgrind" else [a for a in args if "/drv/" in str(a)][0]).split("-")[0]
 
     def start(i, start_at=0, attempt=0):
         op = os.path.join(rundir, "%s%d.%d.out" % (tag, i, attempt))
@@ -266,22 +277,35 @@ def run_shards(binary, args, nshards, rundir, env=None, timeout=1800, tag="s", s
         p = subprocess.Popen(cmd, stdout=open(op, "w"), stderr=open(ep, "w"), env=pe,
                              stdin=subprocess.DEVNULL)
         procs[p.pid] = (p, i, attempt, ep, time.time())
+        progress[p.pid] = [None, time.time()]
 
     for i in range(nshards):
         start(i)
     deadline = time.time() + timeout
+    t_loop0 = time.time()
     while procs:
-        time.sleep(0.05)
+        time.sleep(0.05 if time.time() - t_loop0 < 20 else 0.5)
         for pid in list(procs):
             p, i, attempt, ep, t0 = procs[pid]
             rc = p.poll()
             if rc is None:
-                if time.time() > deadline:
+                now = time.time()
+                cur = _read_case(ep[:-4] + ".case")
+                pr = progress[pid]
+                if cur != pr[0]:
+                    pr[0], pr[1] = cur, now
+                stalled = (now - pr[1]) > stall
+                if now > deadline or stalled:
                     p.kill()
                     p.wait()
                     del procs[pid]
-                    crashes.append(dict(case=None, rc=-9, key="hang:%s" % os.path.basename(binary).split("-")[0],
-                                        stderr="watchdog timeout", hang=True, shard=i))
+                    crashes.append(dict(case=cur, rc=-9, key="hang:%s" % drvname,
+                                        stderr="no progress for %ds on the case in flight" % stall if stalled else "overall watchdog timeout",
+                                        hang=True, shard=i))
+                    n = restarts.get(i, 0)
+                    if stalled and now < deadline and cur is not None and "idx" in cur and n < max_restarts:
+                        restarts[i] = n + 1
+                        start(i, int(cur["idx"]) + 1, attempt + 1)
                 continue
             del procs[pid]
             if rc == 0:
@@ -296,12 +320,7 @@ def run_shards(binary, args, nshards, rundir, env=None, timeout=1800, tag="s", s
                     case = {"raw": m.group(1)}
             if case is None:
                 # the process died without running our death callback: read the case in flight from the mapped file
-                try:
-                    raw = open(ep[:-4] + ".case", "rb").read().split(b"\0", 1)[0].decode("latin-1")
-                    idx_s, _, body = raw.partition("\n")
-                    case = json.loads('{"idx":%d%s%s}' % (int(idx_s), "," if body else "", body))
-                except Exception:
-                    case = None
+                case = _read_case(ep[:-4] + ".case")
             if rc == 2 and "@@HARNESS" in err:
                 raise HarnessFailure("driver reported harness failure: " + err[-2000:])
             key = san_key(err) or valgrind_key(err) or ("exit:%d" % rc)
